@@ -145,6 +145,7 @@ pub enum Ev {
     TCheck,
     Perm { id: &'static str, ok: bool },
     Write { len: usize, res: i64 },
+    Flush,
     MonoRead(u64),
     UnixRead,
     Sleep(u64),
@@ -348,6 +349,7 @@ impl World {
                 h = fnv(h, &len.to_le_bytes());
                 h = fnv(h, &res.to_le_bytes());
             }
+            Ev::Flush => h = fnv(h, &[19]),
             Ev::MonoRead(t) => {
                 h = fnv(h, &[12]);
                 h = fnv(h, &t.to_le_bytes());
@@ -750,7 +752,10 @@ impl Write for SimWriter {
     }
 
     fn flush(&mut self) -> io::Result<()> {
-        with(|w| w.c.flushes += 1);
+        with(|w| {
+            w.c.flushes += 1;
+            w.push(Ev::Flush);
+        });
         Ok(())
     }
 }
